@@ -9,7 +9,7 @@ CONSTANTS Peers = {"a", "b", "c"}
           Stores <- StoresB
           Conn0s = {{}}
           Directs = {{"a", "b", "c"}}
-          Insts = {{}, {"a"}}
+          Insts = {{"a"}}
           PeriodV = 3
           CtV = 2
           BiV = 4
